@@ -78,6 +78,7 @@ class Path:
         self.body = body
         self.st = st
         self.z = st.zone
+        E.view_zone = st.zone       # (hand-written cursor handles are read under the facts of this path)
         self.val = val
         self.subjects = subjects
         self.arg = argtags
@@ -975,6 +976,7 @@ class Iteration:
 
     def __init__(self, E, st, seg):
         self.E, self.st, self.z, self.seg = E, st, st.zone, seg
+        E.view_zone = st.zone
 
     def ev(self, *kinds):
         return [e for e in self.seg if e[0] in kinds]
@@ -1629,6 +1631,10 @@ def _describe_parts(p, v):
             return
         if x[0] == 'sliceit':
             out.append(('plain', x[1], x[2], x[3]))
+            return
+        cv = p.E.cursor_view(x)
+        if cv is not None:
+            out.append(('plain', cv[1], cv[2], cv[3]))
             return
         if x[0] == 'adt':
             for y in x[3]:
